@@ -203,7 +203,7 @@ GLM_FUNC_QUALIFIER vec<L, U, Q> associatedMax
 	vec<L, T, Q> const& y, U b
 )
 {
-	vec<L, T, Q> Result;
+	vec<L, U, Q> Result;
 	for(length_t i = 0, n = Result.length(); i < n; ++i)
 		Result[i] = x[i] > y[i] ? a : b;
 	return Result;
@@ -261,7 +261,7 @@ GLM_FUNC_QUALIFIER vec<L, U, Q> associatedMax
 	vec<L, T, Q> const& z, U c
 )
 {
-	vec<L, T, Q> Result;
+	vec<L, U, Q> Result;
 	for(length_t i = 0, n = Result.length(); i < n; ++i)
 		Result[i] = x[i] > y[i] ? (x[i] > z[i] ? a : c) : (y[i] > z[i] ? b : c);
 	return Result;
